@@ -915,7 +915,7 @@ func execProxyRaw(e *Env, pp any) {
 		if p.NoCallback {
 			// nobody to tell; the removal of a connection whose reads failed (always
 			// noticed) is judged on the registry itself
-			if !cancelled && p.Reattach == 0 && bad != nil && (bad.spec.Role == 2 || bad.spec.Role == 4) && bad.firstPx != nil && goat.VerifProxyConn(px, n) == goat.RpcReadWriter(bad.firstPx) {
+			if !goat.VerifFallback && !cancelled && p.Reattach == 0 && bad != nil && (bad.spec.Role == 2 || bad.spec.Role == 4) && bad.firstPx != nil && goat.VerifProxyConn(px, n) == goat.RpcReadWriter(bad.firstPx) {
 				e.Violate(prop, "failed-connection-kept", badRoleName(bad)+".no-callback", "the failed connection of %s is still registered with the proxy (built without a disconnect callback)", n)
 			}
 			continue
@@ -953,7 +953,10 @@ func execProxyRaw(e *Env, pp any) {
 			e.Violate(prop, "spurious-disconnect", "proxy", "disconnect callback for %s, none of whose connections failed", d)
 		}
 	}
-	if !cancelled {
+	if goat.VerifFallback {
+		e.Note("accessors.fallback")
+	}
+	if !cancelled && !goat.VerifFallback {
 		clients := goat.VerifProxyClients(px)
 		has := func(n string) bool {
 			for _, c := range clients {
